@@ -8,16 +8,16 @@ PROP = {'lean_props': ['Comrak.Props.C16'],
                        'gfm_bundle',
                        'gfm_is_shorthand',
                        'extension_on_iff',
-                       'mergeConfig_eq_append_partial',
+                       'mergeConfig_eq_append',
                        'formatter_choice',
                        'sink_choice',
                        'inputs_concatenated',
                        'cli_renders_library',
                        'failure_leaves_no_output'],
  'strength': 'full for the flag-to-option wiring (every value of the Cli record), formatter/sink selection, input concatenation and the '
-             'failure paths; the config-file splice is proved for command lines whose arguments are all valid Unicode '
-             '(mergeConfig_eq_append_partial) - for a non-Unicode file argument it is refuted by two Lean counterexamples (argument '
-             'dropped / Vec::insert panic), reproduced on the real binary and proposed as a known finding',
+             'failure paths; the config-file splice is proved for every argument list (mergeConfig_eq_append: process arguments as they are, '
+             'then the config words; the pinned index splice, which dropped non-Unicode arguments or panicked, is kept as mergeConfigOld with '
+             'its two counterexamples and was repaired in /repo)',
  'timeout_quick': 900,
  'timeout_thorough': 3000,
  'trusted_base': ["clap's own parsing beyond the fragment modelled in parseArgs (long/short names, --name=value, -e a,b, repeated -e, --, "
@@ -29,7 +29,7 @@ PROP = {'lean_props': ['Comrak.Props.C16'],
                   'the real library in the harness',
                   'cargo (the harness shells out to `cargo build --offline --bin comrak` in /repo, target dir /verif/work/cli-target) and '
                   'the operating system process / file interface used to observe the binary'],
- 'assumptions': ['command-line arguments are valid Unicode (the non-Unicode case is the recorded finding)',
+ 'assumptions': ['clap parsing is modelled for valid-Unicode arguments; non-Unicode file arguments are exercised on the real binary (with and without a config file) against the library',
                  "default build of the binary (features cli + syntect + bon; `shortcodes` off, so README's --gemojis does not exist)",
                  "`--` is used only when no config file is read: words spliced in after `--` are file names by clap's rules (the model "
                  'predicts that too; compared in K only)',
@@ -54,10 +54,9 @@ TEXT = {'text': 'Proof. The clap record of src/main.rs is a Lean structure with 
          'name in the harness. Invalid UTF-8 (also split across files), missing files and a directory as input: non-zero exit, message, '
          'empty stdout, no file touched. Rejected command lines (duplicates, conflicts, bad values, unbalanced config quotes) are compared '
          'with the model exit codes.',
- 'note': 'Trusted: Lean kernel + standard axioms; harness/driver; clap, shell-words, syntect, cargo. Found on the pinned tree: a '
-         'non-Unicode file argument is dropped (or the process panics) when a config file is read; '
-         '--escaped-char-spans with --experimental-minimize-commonmark panics in debug builds (the ill-formed-tree defect of C04 seen '
-         'through the CLI). Both are recorded as finding candidates until listed in known_findings.json.',
+ 'note': 'Trusted: Lean kernel + standard axioms; harness/driver; clap, shell-words, syntect, cargo. Found on the pinned tree and '
+         'repaired in /repo: a non-Unicode file argument was dropped (or the process panicked) when a config file was read; the '
+         'ill-formed-tree defect of C04 (Escaped containment) seen through --escaped-char-spans with --experimental-minimize-commonmark.',
  'technique': 'Lean 4 theorems (record extensionality + Boolean algebra for the wiring, list induction for the splice and the input '
               'concatenation, case analysis for formatter/sink/exit codes) + differential correspondence of the real binary, rebuilt on '
               'every run, against the executable model and in-process library calls',
